@@ -275,6 +275,33 @@ fn case_regress(doc: &serde_json::Value) -> Outcome {
     Outcome::Pass(c)
 }
 
+/// dedicated witnesses of the known findings: executed on every run so that the KNOWN-FINDING line is
+/// printed only while the defect is there; the generators stay out of the region by construction
+fn case_witness(w: &(&'static str, &'static str, &'static str)) -> Outcome {
+    let (id, text, kind) = *w;
+    let mut c = Case::new(format!("witness {id}"));
+    c.evals = 0;
+    for shell in obs::SHELLS {
+        c.evals += 1;
+        match lib_verdict(text, shell) {
+            None => return Outcome::Fail(Failure::new("library pipeline panicked on a clean grammar", json!({"text": text, "shell": shell, "class": "clean"}))),
+            Some(Ok(())) => {}
+            Some(Err(k)) => {
+                if k == kind && known_ids("C08").contains(id) {
+                    c.known.push((id.to_string(), finding_what(id)));
+                } else {
+                    return Outcome::Fail(Failure::new(
+                        format!("a grammar free of every listed mistake was rejected for {shell} with {k}"),
+                        json!({"text": text, "shell": shell, "class": "clean", "kind": k}),
+                    ));
+                }
+            }
+        }
+    }
+    c.sample = Some(json!({"text": text, "witness_of": id}));
+    Outcome::Pass(c)
+}
+
 pub fn run(tier: Tier, seed: u64) -> i32 {
     let mut run = Run::new(
         "C08",
@@ -287,6 +314,12 @@ pub fn run(tier: Tier, seed: u64) -> i32 {
     run.shards = 3;
     run.shrink_iters = 150;
     run.enumerate("regress", load_regress("C08"), false, case_regress);
+    run.enumerate(
+        "known-finding-witnesses",
+        vec![("F-juxtaposed-literal-through-definition", "cmd <N>;\n<N> = x<Y>;\n<Y> = b;\n", "SubwordSpaces")],
+        false,
+        case_witness,
+    );
     if !run.failed() {
         run.random("binary", tier.pick(400, 20_000), 600, |b| case(b, true));
     }
